@@ -100,6 +100,12 @@ theories/SelectProofs.vos theories/SelectProofs.vok theories/SelectProofs.requir
 theories/Status.vo theories/Status.glob theories/Status.v.beautified theories/Status.required_vo: theories/Status.v theories/Base.vo
 theories/Status.vio: theories/Status.v theories/Base.vio
 theories/Status.vos theories/Status.vok theories/Status.required_vos: theories/Status.v theories/Base.vos
+theories/StepMatch.vo theories/StepMatch.glob theories/StepMatch.v.beautified theories/StepMatch.required_vo: theories/StepMatch.v theories/Base.vo theories/UStr.vo gen/UnicodeTables.vo gen/ActiveTagTables.vo
+theories/StepMatch.vio: theories/StepMatch.v theories/Base.vio theories/UStr.vio gen/UnicodeTables.vio gen/ActiveTagTables.vio
+theories/StepMatch.vos theories/StepMatch.vok theories/StepMatch.required_vos: theories/StepMatch.v theories/Base.vos theories/UStr.vos gen/UnicodeTables.vos gen/ActiveTagTables.vos
+theories/StepMatchProofs.vo theories/StepMatchProofs.glob theories/StepMatchProofs.v.beautified theories/StepMatchProofs.required_vo: theories/StepMatchProofs.v theories/Base.vo theories/UStr.vo theories/StepMatch.vo
+theories/StepMatchProofs.vio: theories/StepMatchProofs.v theories/Base.vio theories/UStr.vio theories/StepMatch.vio
+theories/StepMatchProofs.vos theories/StepMatchProofs.vok theories/StepMatchProofs.required_vos: theories/StepMatchProofs.v theories/Base.vos theories/UStr.vos theories/StepMatch.vos
 theories/Summary.vo theories/Summary.glob theories/Summary.v.beautified theories/Summary.required_vo: theories/Summary.v theories/Base.vo theories/Status.vo theories/Rollup.vo theories/Runner.vo gen/StatusTable.vo gen/SummaryTables.vo
 theories/Summary.vio: theories/Summary.v theories/Base.vio theories/Status.vio theories/Rollup.vio theories/Runner.vio gen/StatusTable.vio gen/SummaryTables.vio
 theories/Summary.vos theories/Summary.vok theories/Summary.required_vos: theories/Summary.v theories/Base.vos theories/Status.vos theories/Rollup.vos theories/Runner.vos gen/StatusTable.vos gen/SummaryTables.vos
@@ -145,6 +151,9 @@ props/C09.vos props/C09.vok props/C09.required_vos: props/C09.v theories/Base.vo
 props/C10.vo props/C10.glob props/C10.v.beautified props/C10.required_vo: props/C10.v theories/Base.vo theories/Select.vo theories/SelectProofs.vo
 props/C10.vio: props/C10.v theories/Base.vio theories/Select.vio theories/SelectProofs.vio
 props/C10.vos props/C10.vok props/C10.required_vos: props/C10.v theories/Base.vos theories/Select.vos theories/SelectProofs.vos
+props/C11.vo props/C11.glob props/C11.v.beautified props/C11.required_vo: props/C11.v theories/Base.vo theories/UStr.vo theories/StepMatch.vo theories/StepMatchProofs.vo
+props/C11.vio: props/C11.v theories/Base.vio theories/UStr.vio theories/StepMatch.vio theories/StepMatchProofs.vio
+props/C11.vos props/C11.vok props/C11.required_vos: props/C11.v theories/Base.vos theories/UStr.vos theories/StepMatch.vos theories/StepMatchProofs.vos
 props/C12.vo props/C12.glob props/C12.v.beautified props/C12.required_vo: props/C12.v theories/Base.vo theories/Status.vo theories/Rollup.vo theories/Runner.vo theories/RunnerVerdict.vo theories/RunnerSteps.vo theories/RunnerQuiet.vo theories/RunnerSelect.vo theories/RunnerHooks.vo theories/RunnerEq.vo gen/StatusTable.vo
 props/C12.vio: props/C12.v theories/Base.vio theories/Status.vio theories/Rollup.vio theories/Runner.vio theories/RunnerVerdict.vio theories/RunnerSteps.vio theories/RunnerQuiet.vio theories/RunnerSelect.vio theories/RunnerHooks.vio theories/RunnerEq.vio gen/StatusTable.vio
 props/C12.vos props/C12.vok props/C12.required_vos: props/C12.v theories/Base.vos theories/Status.vos theories/Rollup.vos theories/Runner.vos theories/RunnerVerdict.vos theories/RunnerSteps.vos theories/RunnerQuiet.vos theories/RunnerSelect.vos theories/RunnerHooks.vos theories/RunnerEq.vos gen/StatusTable.vos
